@@ -86,6 +86,8 @@ class ChainHist(Engine):
             elif r < 0.87:
                 a = {'op': 'parse_b58', 'version': rng.choice(['p2pkh', 'p2sh', 'wif', rng.randrange(256)]), 'len': rng.choice([0, 1, 19, 21, 20, 32, 33, 24])
                      , 'payload': gen.rhex(rng, 40)}
+            elif r < 0.89:
+                a = {'op': 'single_case', 'kind': rng.choice(['p2pkh', 'p2sh']), 'case': rng.choice(['lower', 'upper']), 'seed': rng.randrange(1 << 30)}
             elif r < 0.94:
                 a = {'op': 'parse_raw', 'text': self.gen_raw(rng)}
             else:
@@ -268,7 +270,70 @@ class ChainHist(Engine):
         if op == 'p2pkh_variant':
             self._variant(a)
             return
+        if op == 'single_case':
+            self._single_case(a)
+            return
         raise ValueError(op)
+
+    def _single_case(self, a):
+        """A base58 address whose text happens to be written in one case only (digits plus lower-case, or
+        digits plus upper-case letters) - the look of the OTHER encoding.  One hash in ~10^7 has such a text;
+        it is constructed by decoding a single-case template and repairing the tail until the checksum
+        characters are single-case too."""
+        ctx, W, S = self.ctx, self.W, self.S
+        kind = a['kind']
+        v = RC.TABLE[self.chain][kind]
+        A = '123456789ABCDEFGHJKLMNPQRSTUVWXYZabcdefghijkmnopqrstuvwxyz'
+        pool = [c for c in A if c.isdigit() or (c.islower() if a['case'] == 'lower' else c.isupper())]
+        x = a['seed'] | 1
+        found = None
+        for _ in range(4000):
+            chars = []
+            for _c in range(34):
+                x = (x * 1103515245 + 12345) & 0x7fffffff
+                chars.append(pool[(x >> 8) % len(pool)])
+            first = RC.address_text(self.chain, kind, bytes([(x >> 4) & 0xff]) * 20)[0]
+            t = first + ''.join(chars[1:])
+            for L in (34, 33):
+                try:
+                    raw = RB58.decode(t[:L])
+                except Exception:
+                    continue
+                if len(raw) != 25 or raw[0] != v:
+                    continue
+                h = raw[1:21]
+                real = RC.address_text(self.chain, kind, h)
+                if not any(c.isalpha() for c in real):
+                    continue
+                if real == real.lower() or real == real.upper():
+                    found = (h, real)
+                    break
+            if found:
+                break
+        if not found:
+            ctx.probe('single-case-text-not-found')
+            ctx.log(0, 0, 'single_case', '', 'none')
+            return
+        h, real = found
+        script = RC.script_for(kind, h)
+        det = dict(kind=kind, chain=self.chain, single_case=a['case'])
+        try:
+            addr = W.CBitcoinAddress.from_scriptPubKey(S.CScript(script))
+            text = str(addr)
+            addr2 = W.CBitcoinAddress(text)
+            ok = bytes(addr2.to_scriptPubKey()) == script and str(addr2) == text == real
+        except Exception as e:
+            ctx.check(False, 'C12.roundtrip', '%s under %s whose text %s is written in one case only: round trip raised %s: %s' % (kind, self.chain, real, type(e).__name__, e), **det)
+            return
+        ctx.carry()
+        ctx.check(ok, 'C12.roundtrip', '%s under %s whose text %s is written in one case only does not survive the round trip' % (kind, self.chain, real), **det)
+        self._check_obj(addr2, kind, h, 'C12.class-prefix')
+        # its other-case rendering is not an address
+        other = real.upper() if real == real.lower() else real.lower()
+        self._parse(other, 'single-case-flipped')
+        self.pool.append((real, self.chain, kind, h.hex()))
+        ctx.fault('single-case-base58-text')
+        ctx.log(0, 0, 'single_case', '', kind)
 
     @staticmethod
     def _edit(text, e):
